@@ -2599,7 +2599,9 @@ func (db *DB) ApplyLTXNoLock(path string, fatalOnError bool) (retErr error) {
 		return fmt.Errorf("decode ltx header: %s", err)
 	}
 	hdr = dec.Header()
-	if db.pageSize == 0 {
+
+	// A snapshot replaces the whole database, whatever page size it had.
+	if db.pageSize == 0 || hdr.IsSnapshot() {
 		db.pageSize = dec.Header().PageSize
 	}
 
